@@ -24,7 +24,7 @@ Definition cfg_repo_eps (d e : Z) : config :=
          lock_empty_sleep lock_empty_count_resets (lock_hb_checks_created && lock_hb_check_before_truncate) d e.
 Definition cfg_repo (d : Z) : config := cfg_repo_eps d 0.
 
-Record ev := Ev { etime : Z; ekind : Z; ea : Z; eb : Z }.   (* kind: 0 start(tid, pid) 1 unlock(tid) 2 kill(pid) 3 cancel(tid) *)
+Record ev := Ev { etime : Z; ekind : Z; ea : Z; eb : Z }.   (* kind: 0 start(tid, pid) 1 unlock(tid) 2 kill(pid) 3 cancel(tid) 4 stop(pid) 5 cont(pid) *)
 Record ob := Ob { otid : Z; oout : Z; otime : Z }.          (* out: 0 acquired 1 ctx error 2 decode error 3 other -1 never returned *)
 
 Record case := Case {
@@ -56,15 +56,22 @@ Definition sevent_of (e : ev) : sevent :=
   if ekind e =? 0 then EStart a (Z.to_nat (eb e))
   else if ekind e =? 1 then EUnlock a
   else if ekind e =? 2 then EKill a
+  else if ekind e =? 4 then EStop a
+  else if ekind e =? 5 then ECont a
   else ECancel a.
+
+(** a scenario that suspends a process (SIGSTOP ... SIGCONT) violates H-live on purpose: it is
+    simulated with a heartbeat latency bound that allows any lateness *)
+Definition suspends (es : list ev) : bool := existsb (fun e => ekind e =? 4) es.
+Definition no_bound : Z := 1000000000000000.
 
 (** shift the events that race with the waiters' poll instants (unlock, kill) by [j] *)
 Definition script_of (j : Z) (es : list ev) : list (Z * sevent) :=
   map (fun e => ((if (ekind e =? 1) || (ekind e =? 2) then Z.max 0 (etime e + j) else etime e), sevent_of e)) es.
 
 Definition model_outlog (c : case) (j : Z) : list (tid * Z * Z) :=
-  outlog (simulate (cfg_repo_eps sim_delta (cgap c)) 4000 (chorizon c)
-                   (Sim (init_state (cinit c) (-1)) (script_of j (cevents c)) [] [] [])).
+  outlog (simulate (cfg_repo_eps (if suspends (cevents c) then no_bound else sim_delta) (cgap c)) 4000 (chorizon c)
+                   (Sim (init_state (cinit c) (-1)) (script_of j (cevents c)) [] [] [] [])).
 
 Definition find_out (lg : list (tid * Z * Z)) (t : Z) : option (Z * Z) :=
   match find (fun x => Z.of_nat (fst (fst x)) =? t) lg with
@@ -146,7 +153,7 @@ Definition cancel_ok (c : case) : bool :=
     else true) (cevents c).
 
 (** a free lock is obtained at once: in a scenario without a pre-made lock file and without
-    kills, a thread all of whose contenders either finished (Lock failed, or Unlock called)
+    kills or suspensions, a thread all of whose contenders either finished (Lock failed, or Unlock called)
     at least [free_margin] before it called Lock, or call Lock only [free_prompt] after it,
     acquires within [free_prompt] (well below the poll interval) *)
 Definition free_prompt : Z := 800000000.
@@ -167,7 +174,7 @@ Definition free_ok (c : case) : bool :=
   match cinit c with
   | Some _ => true
   | None =>
-      existsb (fun e => ekind e =? 2) (cevents c) ||
+      existsb (fun e => (ekind e =? 2) || (ekind e =? 4)) (cevents c) ||
       forallb (fun o => match first_time (cevents c) 0 (otid o) with
                         | Some st => negb (free_for c o st) || ((oout o =? 0) && (otime o - st <=? free_prompt))
                         | None => true
